@@ -850,6 +850,43 @@ pub fn run(args: &Args, sink: &mut Sink) {
             run_seq(sink, &format!("kf:D4:{nk}"), 16, &i2, batched, &[Spec::Sort(cid)], &move |w, s| { w.pdrain(s); w.direct(s, &Op::Trunc(nlen)); w.pdrain(s); });
         }
     }
+    // ---- L. long bursts: many source operations without a visible effect queued before one poll (capacity 128, no lag),
+    //         then one with an effect, or the end of the source; a single poll must deliver / end, not stall -------------
+    {
+        let mut nl = 0u64;
+        let only7: u32 = 1 << 7; // the filter that lets only the value 7 through
+        let stages: Vec<Vec<Spec>> = vec![
+            vec![Spec::Filter(only7)], vec![Spec::FMap(only7, 0)], vec![Spec::Head(1)], vec![Spec::Tail(0)], vec![Spec::Skip(200)],
+            vec![Spec::Filter(only7), Spec::Head(2)], vec![Spec::Head(1), Spec::Filter(only7)], vec![Spec::Filter(only7), Spec::Sort(0)],
+            vec![Spec::DSkipI(200, 0)], vec![Spec::DHeadI(1, 0)],
+        ];
+        let bursts: Vec<usize> = if thorough { vec![5, 31, 32, 33, 34, 40, 63, 64, 65, 100] } else { vec![31, 32, 33, 40, 65] };
+        for specs in &stages {
+            for batched in [false, true] {
+                for &b in &bursts {
+                    for ending in 0..3 {
+                        nl += 1;
+                        let specs2 = specs.clone();
+                        run_seq(sink, &format!("L{nl}"), 128, &[1, 2], batched, specs, &move |w, s| {
+                            w.pdrain(s);
+                            // invisible to every stage list above: values 1..6 appended behind two existing items
+                            for k in 0..b { w.direct(s, &Op::PushB(1 + (k % 6) as V)); }
+                            match ending {
+                                0 => { w.direct(s, &Op::PushB(7)); w.direct(s, &Op::PushF(7)); }
+                                1 => { w.drop_vec(s); }
+                                _ => { w.direct(s, &Op::Clear); w.direct(s, &Op::PushB(7)); }
+                            }
+                            let _ = &specs2;
+                            w.ppoll(s);
+                            w.ppoll(s);
+                            w.pdrain(s);
+                        });
+                    }
+                }
+            }
+        }
+        sink.stat_n("burst_cases", nl);
+    }
     // ---- R. random histories over random chains -----------------------------------------------------------------
     let mut rng = Rng(args.seed ^ 0xADA9);
     let rounds = if thorough { 30000 } else { 4000 };
